@@ -395,10 +395,12 @@ def process_missing_and_gates(
         universe = frozenset(universe_holder)
 
         if not insoluble:
+            # the evidence for grouping the children is every observed set as
+            # far as it concerns them, not only the sets made of them alone
             recursive_event_set = {
-                event_set
+                event_set & universe
                 for event_set in ev.get_reduced_event_set(event_sets)
-                if event_set.issubset(universe)
+                if event_set & universe
             }
             if universe in recursive_event_set:
                 recursive_event_set.remove(universe)
